@@ -1037,7 +1037,7 @@ class Transformer:
             for rule in rules:
                 from_year = rule['fromYear']
                 to_year = rule['toYear']
-                if not is_year_tiny(from_year) or not is_year_tiny(from_year):
+                if not is_year_tiny(from_year) or not is_year_tiny(to_year):
                     valid = False
                     _add_reason(
                         removed_policies, name,
